@@ -6,7 +6,7 @@ cd "$(dirname "$0")/.."
 for d in seeded/${1:-*}/; do
   n=$(basename $d); id=${n%%-*}; wt=/tmp/sr_$n
   git -C /repo worktree add -q --detach $wt HEAD 2>/dev/null || { echo "$n: cannot create worktree"; continue; }
-  if git -C $wt apply $PWD/$d/patch.diff 2>/tmp/sr_apply.err; then
+  if git -C $wt apply $PWD/$d/patch.diff 2>/tmp/sr_apply.err || (cd $wt && patch -p1 --fuzz=3 -s < $OLDPWD/$d/patch.diff >/tmp/sr_apply.err 2>&1); then
     s=$(date +%s); VERIF_REPO=$wt timeout 3000 ./check $id > /tmp/sr_$n.log 2>&1; rc=$?
     echo "$n: exit=$rc $(( $(date +%s)-s ))s $(grep -c '^VIOLATION' /tmp/sr_$n.log) violation line(s) | $(grep "tier=" /tmp/sr_$n.log | tail -1 | cut -c1-140)"
   else
